@@ -2,7 +2,7 @@
    indices of the cases on which the model and the observed behaviour of the
    real code differ, or on which the specification predicate fails on the
    observed directory trees. *)
-From V Require Import Common.Base C17.WriteSM C17.Spec.
+From V Require Import Common.Base C17.WriteSM C17.Spec C17.IOFail.
 
 Fixpoint mism_from {A} (f : A -> bool) (l : list A) (i : nat) : list nat :=
   match l with
@@ -43,9 +43,10 @@ Definition check_allow := mismatches allow_ok.
           BuildResult.OutputFiles as (path, contents, hash id),
           physical files of inputs,
           physical files created or rewritten by this rebuild,
-          directory tree after the rebuild) *)
+          directory tree after the rebuild,
+          output paths at which creating the directory or writing the file failed) *)
 Definition step_case : Type :=
-  list (path * option content) * (bool * bool) * list (path * content * Z) * list path * list path * list (path * content).
+  list (path * option content) * (bool * bool) * list (path * content * Z) * list path * list path * list (path * content) * list path.
 (* ((write, allow, stdout), directory symlinks, tree before, steps) *)
 Definition hist_case : Type :=
   (bool * bool * bool) * list (path * path) * list (path * content) * list step_case.
@@ -59,15 +60,15 @@ Definition outs_of (l : list (path * content * Z)) : list outfile :=
 Fixpoint hist_steps (fixed : bool) (opt : options) (links : list (path * path)) (st : state) (scs : list step_case) : bool :=
   match scs with
   | [] => true
-  | (edits, (failed, onend), outs, ins, rewritten, after) :: r =>
+  | (edits, (failed, onend), outs, ins, rewritten, after, wfail) :: r =>
     let phys := phys_links links in
     let st1 := mkState (apply_edits (disk st) edits) (latest st) in
     let oc := mkOutcome failed [] false (outs_of outs) false false onend in
-    let '(st2, res) := step_gen phys fixed opt st1 oc in
+    let '(st2, res) := step_io phys fixed opt st1 oc wfail in
     disk_eqb (disk st2) after
     && set_eqb (map phys (writes_of (r_effects res))) rewritten
     && list_eqb path_eqb (map o_path (r_outputs res)) (map (fun x => fst (fst x)) outs)
-    && Bool.eqb (r_errors res) (failed || onend)
+    && Bool.eqb (r_errors res) (failed || onend || nonempty wfail)
     && hist_steps fixed opt links st2 r
   end.
 Definition hist_ok (fixed : bool) (c : hist_case) : bool :=
@@ -88,11 +89,11 @@ Fixpoint spec_steps (w a : bool) (links : list (path * path)) (before : fmap con
          (scs : list step_case) : bool :=
   match scs with
   | [] => true
-  | (edits, (failed, onend), outs, ins, rewritten, after) :: r =>
+  | (edits, (failed, onend), outs, ins, rewritten, after, wfail) :: r =>
     let phys := phys_links links in
     let o := mkObs (apply_edits before edits) after
                    (map (fun x => (phys (fst (fst x)), snd (fst x))) outs) ins failed w a own in
-    only_reported_b o && all_reported_written_b o && failed_no_write_b o && single_valued_b o
+    only_reported_b o && (nonempty wfail || all_reported_written_b o) && failed_no_write_b o && single_valued_b o
     && (nonempty links || inputs_not_overwritten_b o)
     && spec_steps w a links after (rewritten ++ own) r
   end.
